@@ -124,6 +124,10 @@ class SymbolScenario(explore.Scenario):
             out.append(["yset", m, "clear", []])
             out.append(["yset", m, "update", list(self.syms)])
             out.append(["yset", m, "pop", []])
+            # the other module's live symbol set as the operand
+            other = "M2" if m == "M1" else "M1"
+            out.append(["yset", m, "update_live", [other]])
+            out.append(["yset", m, "ixor_live", [other]])
         for m in ("M1", "M2", None):
             out.append(["smod", m])
             out.append(["pmod", m])
@@ -190,6 +194,14 @@ class SymbolScenario(explore.Scenario):
                 elif meth == "update":
                     coll.update([O[y] for y in args])
                     for y in args:
+                        M[y][0] = op[1]
+                elif meth in ("update_live", "ixor_live"):
+                    src = {y for y in self.syms if M[y][0] == args[0]}
+                    if meth == "update_live":
+                        coll.update(O[args[0]].symbols)
+                    else:
+                        coll ^= O[args[0]].symbols
+                    for y in src:
                         M[y][0] = op[1]
                 elif meth == "pop":
                     if not cur:
